@@ -3,6 +3,7 @@
    keys, the format of cr-sqlite's crsql_pack_columns). Bytes are integers
    0..255. *)
 From Coq Require Import List ZArith Bool.
+From Corro Require Import Gen.PackMasks.
 Import ListNotations.
 Open Scope Z_scope.
 
@@ -30,15 +31,19 @@ Fixpoint be_val (bs : list Z) (acc : Z) : Z :=
 Definition to_u64 (i : Z) : Z := i mod 2 ^ 64.
 Definition of_u64 (u : Z) : Z := if u <? 2 ^ 63 then u else u - 2 ^ 64.   (* `as i64` *)
 
+(* the width tables are GENERATED from the source (tools/pack2coq.py -> Gen/PackMasks.v):
+   the first (mask, width) with `val & mask != 0` decides *)
+Definition nbytes_of (masks : list (Z * nat)) (u : Z) : option nat :=
+  match find (fun m => negb (Z.land u (fst m) =? 0)) masks with Some m => Some (snd m) | None => None end.
+
 (* num_bytes_needed_i32 on a value 0 <= w < 2^32 *)
 Definition nbytes32 (w : Z) : nat :=
-  if 2 ^ 24 <=? w then 4 else if 2 ^ 16 <=? w then 3 else if 2 ^ 8 <=? w then 2
-  else if w =? 0 then 0 else 1.
+  match nbytes_of nb32_masks w with Some n => n | None => O end.
 
-(* num_bytes_needed_i64 on the u64 image of the value *)
+(* num_bytes_needed_i64 on the u64 image of the value; falls through to
+   num_bytes_needed_i32(val as i32) *)
 Definition nbytes64 (u : Z) : nat :=
-  if 2 ^ 56 <=? u then 8 else if 2 ^ 48 <=? u then 7 else if 2 ^ 40 <=? u then 6
-  else if 2 ^ 32 <=? u then 5 else nbytes32 u.
+  match nbytes_of nb64_masks u with Some n => n | None => nbytes32 (u mod 2 ^ 32) end.
 
 Definition pack_val (v : sval) : list Z :=
   match v with
